@@ -27,9 +27,15 @@ use avh::prng::Rng;
 use std::io::Write;
 use std::panic::{catch_unwind, AssertUnwindSafe};
 use std::sync::Mutex;
-use std::time::Instant;
 
 static LAST_PANIC: Mutex<String> = Mutex::new(String::new());
+
+/// CPU time of this thread in milliseconds (wall-clock would raise false alarms on a loaded machine)
+fn cpu_ms() -> u128 {
+    let mut ts = libc::timespec { tv_sec: 0, tv_nsec: 0 };
+    unsafe { libc::clock_gettime(libc::CLOCK_THREAD_CPUTIME_ID, &mut ts) };
+    (ts.tv_sec as u128) * 1000 + (ts.tv_nsec as u128) / 1_000_000
+}
 
 struct NullSink(u64);
 impl OutlineSink for NullSink {
@@ -228,9 +234,9 @@ fn guard<F: FnOnce()>(rep: &mut Report, entry: &str, size: usize, f: F) {
     if rep.bad.is_some() {
         return;
     }
-    let t = Instant::now();
+    let t = cpu_ms();
     let r = catch_unwind(AssertUnwindSafe(f));
-    let ms = t.elapsed().as_millis();
+    let ms = cpu_ms() - t;
     if r.is_err() {
         let loc = LAST_PANIC.lock().unwrap().clone();
         rep.bad = Some(format!("panic:{}:{}", entry, loc));
